@@ -238,11 +238,11 @@ pub fn duplicates(ts: &[Tuple]) -> bool {
 
 fn families_for(prop: &str, quick: bool) -> Vec<&'static str> {
     match prop {
-        "C01" => vec!["F1", "F2", "F3", "F4", "F5", "F6", "F8"],
-        "C02" => vec!["F1", "F2", "F3", "F4", "F5", "F6", "F8"],
+        "C01" => vec!["F1", "F2", "F3", "F4", "F5", "F6", "F8", "F9"],
+        "C02" => vec!["F1", "F2", "F3", "F4", "F5", "F6", "F8", "F9"],
         "C03" => vec!["F6", "F5", "F1", "F2"],
         "C06" => vec!["F6"],
-        "C07" => vec!["F1", "F2", "F3", "F4", "F5", "F6", "F7", "F8"],
+        "C07" => vec!["F1", "F2", "F3", "F4", "F5", "F6", "F7", "F8", "F9"],
         "C08" => {
             if quick {
                 vec!["F2", "F3", "F4", "F8"]
@@ -258,7 +258,7 @@ fn edb_budget(prop: &str, quick: bool) -> usize {
     match (prop, quick) {
         ("C01", true) => 180,
         ("C01", false) => 700,
-        ("C02", true) => 8,
+        ("C02", true) => 4,
         ("C02", false) => 60,
         ("C03", true) => 24,
         ("C03", false) => 300,
@@ -321,8 +321,8 @@ pub fn run(args: &Args) -> i32 {
     run.put("programs_per_family", json!(fam_counts));
     run.put("edb_budget_per_program", json!(budget));
     run.set_rule(match prop {
-        "C01" => "every program of families F1-F6 and F8 (repeated sub-plans) (complete within the grammar bounds of harness/src/gen.rs) x every EDB with <=m tuples per relation over D={1,2,3} (all subsets); default optimizer config, 1 worker; engine answer compared as a set with reference evaluator R1. non-trivial = (program,EDB) pairs whose reference answer is non-empty, counted distinct by hash of (program,EDB)",
-        "C02" => "every program of F1-F6 and F8 (repeated sub-plans) x every small EDB x all 32 optimizer switch combinations; all 32 answers must be equal and equal to R1. evaluation = one engine execution; non-trivial = distinct (program,EDB) with non-empty reference answer",
+        "C01" => "every program of families F1-F6, F8 (repeated sub-plans) and F9 (multi-selection atoms over a ternary relation) (complete within the grammar bounds of harness/src/gen.rs) x every EDB with <=m tuples per relation over D={1,2,3} (all subsets); default optimizer config, 1 worker; engine answer compared as a set with reference evaluator R1. non-trivial = (program,EDB) pairs whose reference answer is non-empty, counted distinct by hash of (program,EDB)",
+        "C02" => "every program of F1-F6, F8 (repeated sub-plans) and F9 (multi-selection atoms over a ternary relation) x every small EDB (quick: at most 10 per program, fixed stride) x all 32 optimizer switch combinations; all 32 answers must be equal and equal to R1. evaluation = one engine execution; non-trivial = distinct (program,EDB) with non-empty reference answer",
         "C03" => "programs of F1,F2,F5,F6 x EDBs of up to 16 tuples over D={1..4} x workers in {1,2,3,4,8}; answer(w) must equal answer(1) and R1; non-trivial = distinct (program,EDB) with non-empty answer",
         "C06" => "all aggregate programs of F6 x all small EDBs x all 32 optimizer configurations; engine vs R1 aggregate semantics (distinct body valuations); non-trivial = distinct (program,EDB) with non-empty answer",
         "C07" => "every accepted program of F1-F7 x EDBs; structural check of the answer (no duplicate tuple, arity = head arity, head constants verbatim); non-trivial = distinct (program,EDB) with non-empty engine answer",
@@ -338,6 +338,14 @@ pub fn run(args: &Args) -> i32 {
         let p = &g.prog;
         let text = p.text();
         let edbs = if prop == "C03" { edbs_c03(p, run.quick()) } else { edbs_for(p, &b, budget) };
+        // C02 quick multiplies every case by 32 configurations: at most 10 EDBs per program, taken at a fixed
+        // stride from the complete list (a deterministic sub-family; the thorough tier runs the complete list)
+        let edbs: Vec<Db> = if prop == "C02" && run.quick() && edbs.len() > 10 {
+            let stride = edbs.len().div_ceil(10);
+            edbs.into_iter().step_by(stride).collect()
+        } else {
+            edbs
+        };
         let arity = p.query_arity();
         let feat = feature(p);
         // recursive min/max over a cyclic weighted graph need not terminate (max) - acyclic EDBs only
